@@ -21,6 +21,8 @@ GLOBAL_RULES = {
     'traceback.print_exc': 'NOEFFECT',
     'f.getvalue': 'fresh:Str',
     'gc.collect': 'fresh:int',
+    # T4: the file system answers arbitrarily (what exists is outside every contract)
+    'os.path.exists': 'fresh:bool', 'os.path.isfile': 'fresh:bool', 'os.path.isdir': 'fresh:bool', 'os.path.islink': 'fresh:bool',
 }
 
 
@@ -30,6 +32,13 @@ def register(E):
         E.global_rules.setdefault(k, v)
     E.truthy_sorts.setdefault('Output', 'always')
     E.objattrs.setdefault(('Any', 'subunit_label'), 'Str')
+    import z3 as _z3
+    from pyvc.vals import VInt as _VInt
+    _ms = _z3.Int('sys_maxsize')
+    if ('maxsize',) not in E.added_axioms:
+        E.added_axioms.add(('maxsize',))
+        E.axioms.append(_ms >= 2147483647)
+    E.globals.setdefault('sys.maxsize', lambda eng, st: _VInt(_ms))
     E.globals.setdefault('is_jython', False)
     E.globals.setdefault('uses_refcounts', True)
     note = ("T5: OutputFormatter/Subunit formatter methods are assumed to terminate, raise nothing and not to "
